@@ -15,6 +15,17 @@ CLAIMED = {
          'the sow/perturb-do-not-change-the-output clause is checked by oracle, not proved. Object identity of inputs is oracle-only. No axioms.',
     technique='Coq proof (frame invariant by induction over the fuelled interpreter) + per-run model-vs-implementation correspondence by vm_compute',
     ref='DESIGN.md section 5, C01'),
+  'C02': dict(
+    text='PARTIAL. On the Linen reference semantics of C01: proved for all states - a clash between two submodules, a submodule and a variable, or two variables of one collection is '
+         'NameInUse while the same name in two collections is allowed; a missing parameter under an immutable params collection raises (ScopeParamNotFound / ScopeCollectionNotFound) and a '
+         'wrongly shaped one raises ScopeParamShapeError, never a re-initialisation; the k-th unnamed child of class K is named K_k under the parent path. The remaining sentences (apply on '
+         'init\'s variables needs no initialisation, keeps the paths and reproduces the output; a child applied on its sub-tree equals the child inside a parent; eval_shape / jit / lazy_init '
+         'give the same structure, shapes and dtypes) are decided per run by the correspondence (the executable model predicts each of these runs) and by implementation oracles.',
+    note='Trusted: Coq kernel, vm_compute, harness, jaxcompat. Not proved: the two-run simulation lemmas (init vs apply, standalone child) and shape-parametricity. Not in the program '
+         'grammar: setup-style modules, bind/unbind, lists of submodules, share_scope. lazy_init is only compared for programs without input-dependent variable writes (documented '
+         'LazyInitError). No axioms.',
+    technique='Coq proof of the step-level facts + per-run model-vs-implementation correspondence by vm_compute + implementation oracles',
+    ref='DESIGN.md section 5, C02'),
   'C09': dict(
     text='Linen: on the reference semantics of C01, every key handed out is addressed by (stream after the params fallback, module path, per-scope count) and no two draws of one init/apply share '
          'an address (invariant over the interpreter, all programs); the byte string hashed with the separator determines the path for zero-free components (F8 and the no-separator collision '
